@@ -59,6 +59,10 @@ def run(pid, replay=None):
     if pid == "C09":
         cases = [c for c in strategies if not c["devs"]] or strategies
         reps = 400 if thorough else 60
+        if not replay:
+            # data classes of the random streams are rare (a shared secret with a leading zero byte: about 1 exchange in
+            # 200-256): the honest cases are run twice over, in 16 driver processes with different seeds
+            cases = [dict(c) for c in cases] + [dict(c) for c in cases]
         for c in cases:
             c["expect"] = {"client": "done", "server": "done", "same_key": True, "same_salt": True, "key_nonzero": True}
     elif pid == "C10":
@@ -88,12 +92,23 @@ def run(pid, replay=None):
             c["expect"] = {"returned": True, "failed": True, "within_margin": True}
     if not cases:
         raise vlib.Infra("no cases for %s" % pid)
-    res = drive(pid, binp, cases, reps, work)
+    res = drive(pid, binp, cases, reps, work, nproc=16 if pid == "C09" else 8)
     if len(res) < len(cases) * reps:
         raise vlib.Infra("exchdrv produced %d results for %d cases x %d" % (len(res), len(cases), reps))
     for r in res:
         c = cases[r["case"]]
         d = vlib.compare_expect(c["expect"], r["got"])
+        if d and r["got"].get("client") == "stuck" and c.get("kind") not in ("stall", "connstall") and not replay:
+            # "stuck" is a wall-clock verdict (no return within the exchange timeout plus a margin): on a loaded machine the
+            # CPU-bound parameter checks alone can take that long.  It counts only if it happens again when the case runs alone.
+            w2 = vlib.outdir(pid, "recheck", clean=True)
+            again = drive(pid, binp, [c], 3, w2, nproc=1)
+            bad = [x for x in again if vlib.compare_expect(c["expect"], x["got"])]
+            if not bad:
+                log("%s: a slow exchange (%s) was not reproduced in 3 solitary runs: ignored" % (pid, json.dumps(r["got"])))
+                continue
+            r = dict(bad[0], case=r["case"])
+            d = vlib.compare_expect(c["expect"], r["got"])
         if d:
             what = (c.get("kind") == "connstall" and "connstall:step%d:exch%d:pfs%s:regen%s" % (c["step"], c["exch"], c["pfs"], c["regen"])) or \
                    (c.get("kind") == "stall" and ("stall:step%d:ctx%d:%s" % (c["step"], c["ctx_deadline_ms"], c["mode"]))) or \
